@@ -126,7 +126,11 @@ elif op == "del_atom":
             bad.append("failed del_atom changed the atom list")
     bad += wf(m, ref)
 elif op in ("append_bond", "append_bonds", "extend_bonds"):
-    if w.get("formerly_own"):
+    if w.get("parent_elsewhere"):
+        m, ref = build(kind, 3, bonds=((0, 1),))
+        other = ml.Promolecule(list(m.atoms), copy_atoms=False)      # re-points the parent references of m's own atoms
+        a2 = m.atoms[2]
+    elif w.get("formerly_own"):
         m, ref = build(kind, 4, bonds=((0, 1),))
         a2 = m.atoms[3]
         m.del_atom(a2)                      # deleted earlier in the history, now bonded again
